@@ -1405,40 +1405,51 @@ def run_serial_sequence(ctx, marshal, message, n):
 
 
 def run_real_limit(ctx, marshal, message):
-    """The real 128 MiB limit (thorough tier): messages of 2^27 - 1 .. 2^27 + 8 bytes with 7 bytes of header padding:
-    whatever is longer than 2^27 must be refused (a size check that forgets the padding lets 2^27+1..2^27+7 through);
-    what is constructed must parse back.  That a message of exactly 2^27 bytes IS constructible is not demanded."""
-    message.DBusMessage._nextSerial = 77
-    member = 'm'
-    for k in range(1, 9):                       # a header that needs 7 bytes of padding
-        probe = message.SignalMessage('/a', 'm' * k, 'a.b', signature='s', body=['x'])
-        if len(probe.rawPadding) == 7:
-            member = 'm' * k
-            break
-    overhead = len(probe.rawMessage) - 1
-    for extra in (-1, 0, 1, 7, 8):
-        n = 2 ** 27 - overhead + extra
-        s = 'x' * n
-        try:
-            m = message.SignalMessage('/a', member, 'a.b', signature='s', body=[s])
-            size = len(m.rawMessage)
-            ok, err = True, None
-        except Exception as e:
-            ok, size, err = False, None, exc_name(e)
-        ctx.impl_trace()
-        ctx.case('real-limit', sample={'string_length': n, 'constructed': ok}, n=1)
-        inp = {'kind': 'real-limit', 'string_length': n, 'member': member}
-        if ok and size > 2 ** 27:
-            ctx.violation('oversize-constructible', 'a message of %d bytes (2^27 + %d) is constructed' % (size, size - 2 ** 27),
-                          inp=inp, observed=size, expected='MarshallingError')
-        if not ok and extra <= 0:
-            ctx.note('a message of 2^27%+d bytes is refused (%s): not demanded by the statement, recorded only' % (extra, err))
-        if ok and size <= 2 ** 27:
-            pm = message.parseMessage(m.rawMessage, [])
-            if pm.body != [s] or pm.serial != m.serial:
-                ctx.violation('parse-own-differs', 'the %d-byte message does not parse back' % size, inp=inp)
-            del pm
-        del s
+    """The real 128 MiB limit (thorough tier), for each of the four classes: messages of 2^27 - 1 .. 2^27 + 8 bytes whose
+    header needs 7 bytes of padding: whatever is longer than 2^27 must be refused (a size check that forgets the padding
+    lets 2^27+1..2^27+7 through; a class with its own larger limit lets everything through); what is constructed must
+    parse back.  That a message of exactly 2^27 bytes IS constructible is not demanded."""
+    def make(cls, member, body):
+        if cls == 'call':
+            return message.MethodCallMessage('/a', member, signature='s', body=body)
+        if cls == 'ret':
+            return message.MethodReturnMessage(1, body=body, signature='s', destination=':1.' + member)
+        if cls == 'err':
+            return message.ErrorMessage('a.' + member, 1, signature='s', body=body)
+        return message.SignalMessage('/a', member, 'a.b', signature='s', body=body)
+    for cls in CLASSES:
+        message.DBusMessage._nextSerial = 77
+        member, probe = 'm', None
+        for k in range(1, 9):                       # a header that needs 7 bytes of padding
+            probe = make(cls, 'm' * k, ['x'])
+            if len(probe.rawPadding) == 7:
+                member = 'm' * k
+                break
+        overhead = len(probe.rawMessage) - 1
+        for extra in ((-1, 0, 1, 7, 8) if cls == 'sig' else (0, 1, 8)):
+            n = 2 ** 27 - overhead + extra
+            s = 'x' * n
+            try:
+                m = make(cls, member, [s])
+                size = len(m.rawMessage)
+                ok, err = True, None
+            except Exception as e:
+                ok, size, err, m = False, None, exc_name(e), None
+            ctx.impl_trace()
+            ctx.case('real-limit', sample={'cls': cls, 'string_length': n, 'constructed': ok}, n=1)
+            inp = {'kind': 'real-limit', 'cls': cls, 'string_length': n, 'member': member}
+            if ok and size > 2 ** 27:
+                ctx.violation('oversize-constructible', 'a %s of %d bytes (2^27 + %d) is constructed'
+                              % (CLSNAME[cls], size, size - 2 ** 27), inp=inp, observed=size, expected='MarshallingError')
+            if not ok and extra <= 0:
+                ctx.note('a %s of 2^27%+d bytes is refused (%s): not demanded by the statement, recorded only'
+                         % (CLSNAME[cls], extra, err))
+            if ok and size <= 2 ** 27:
+                pm = message.parseMessage(m.rawMessage, [])
+                if pm.body != [s] or pm.serial != m.serial:
+                    ctx.violation('parse-own-differs', 'the %d-byte message does not parse back' % size, inp=inp)
+                del pm
+            del s, m
 
 
 # ---------------------------------------------------------------------------------- corpus / replay
